@@ -68,6 +68,26 @@ func (s *Sim) opWeights() weights {
 			}
 		}
 	}
+	if s.pf.QuotaPreempt && s.post != nil {
+		// a queue sits above its configured maximum: the quota preemption tick has work, more than once
+		for _, path := range sortedKeys(s.post.Queues) {
+			q, spec := s.post.Queues[path], s.conf.Find(path)
+			if spec == nil || len(spec.Max) == 0 {
+				continue
+			}
+			over := false
+			for t, m := range spec.Max {
+				if q.Alloc[t] > m {
+					over = true
+				}
+			}
+			if over {
+				w["tick"] += 8
+				w["advance"] += 6
+				break
+			}
+		}
+	}
 	if s.faultOn("malformed") {
 		w["malformed"] = 8
 	}
@@ -578,6 +598,19 @@ func (s *Sim) genOpOf(kind string) (Op, bool) {
 				for _, path := range sortedKeys(s.post.Queues) {
 					if s.post.Queues[path].Status == "Draining" && r.Bool(0.7) {
 						return Op{Kind: "tick", Type: "cleanup"}, true
+					}
+				}
+				if s.pf.QuotaPreempt {
+					for _, path := range sortedKeys(s.post.Queues) {
+						q, spec := s.post.Queues[path], s.conf.Find(path)
+						if spec == nil {
+							continue
+						}
+						for t, m := range spec.Max {
+							if q.Alloc[t] > m && r.Bool(0.5) {
+								return Op{Kind: "tick", Type: "quota"}, true
+							}
+						}
 					}
 				}
 			}
